@@ -65,6 +65,21 @@ func (c10) Gen(r *rand.Rand, tier string, run int) *core.Case {
 			c.Params["transport"] = 1
 		}
 	}
+	if c.Batch == "" && r.IntN(8) == 0 {
+		// the stream ends (the sending process dies, the connection is reset)
+		// at a chosen byte: on a message boundary, inside a header, between a
+		// header and its payload, inside a payload. What was received whole
+		// before that is delivered, nothing else is
+		c.Batch = "stream-cut"
+		c.Params["cut"] = 1
+		c.Params["cut_frame"] = r.IntN(64)
+		c.Params["cut_delta"] = r.IntN(8)
+		c.Params["cut_reset"] = r.IntN(2)
+		c.Params["transport"] = 0
+		c.Params["late"] = 0
+		c.Params["early"] = 0
+		c.Net.Capacity = 0
+	}
 	sizes := []int{0, 0, 1, 3, 27, 28, 29, 100, 255, 600, 600, 5000, 20000, 70000}
 	if c.Net.ReadMode == "byte" || c.Net.ReadMode == "tiny" || c.Net.Capacity == 16 {
 		sizes = sizes[:11]
@@ -135,6 +150,7 @@ type c10state struct {
 	mu       sync.Mutex
 	sent     map[int][]c10sent
 	total    int
+	cutPos   int // (stream-cut) the receiver's stream ended after this many bytes
 }
 
 func (c10) Run(c *core.Case, env *core.Env) {
@@ -172,7 +188,13 @@ func (c10) Run(c *core.Case, env *core.Env) {
 		a, b = simnet.Pipe()
 	default:
 		a, b = simnet.BufferedPair("sender", "receiver")
+		if c.P("cut", 0) == 1 {
+			// nothing is taken from the connection until everything was sent
+			// and the place of the cut is chosen
+			b.StallReads(true)
+		}
 	}
+	st.cutPos = -1
 	hr := rand.New(rand.NewPCG(uint64(c.P("hseed", 1)), 7))
 	senders := c.P("senders", 2)
 	st.handlers = append(st.handlers, &c10handler{kind: "all", queue: make(chan *net.Message, total+1)})
@@ -416,6 +438,26 @@ func (c10) Run(c *core.Case, env *core.Env) {
 	}
 	wg.Wait()
 	earlyWG.Wait()
+	if c.P("cut", 0) == 1 && b != nil {
+		wire, _ := a.Sent()
+		frames, _, _ := ref.ParseStream(wire)
+		if len(frames) == 0 {
+			b.StallReads(false)
+			return
+		}
+		f := frames[c.P("cut_frame", 0)%len(frames)]
+		size := 28 + len(f.Payload)
+		delta := []int{0, 1, 27, 28, 29, 28 + len(f.Payload)/2, size - 1, 14}[c.P("cut_delta", 0)%8]
+		if delta >= size {
+			delta = size - 1
+		}
+		st.cutPos = f.End - size + delta
+		zzsim.Event("the receiver's stream will end after %d bytes (frame %#x, %d bytes into it)", st.cutPos, f.ID, delta)
+		b.CutIncomingAfter(st.cutPos, c.P("cut_reset", 0) == 1)
+		b.StallReads(false)
+		env.Probe(fmt.Sprintf("stream-cut-%d-bytes-into-a-message", []int{0, 1, 27, 28, 29, 30, 31, 14}[c.P("cut_delta", 0)%8]))
+		env.S.Quiesce()
+	}
 }
 
 func (c10) Check(c *core.Case, env *core.Env, res zzsim.Result, v *core.Verdict) {
@@ -478,6 +520,17 @@ func (c10) Check(c *core.Case, env *core.Env, res zzsim.Result, v *core.Verdict)
 			bad("not-exactly-once", "message %#x is %d times on the wire", id, seen[id])
 		}
 	}
+	// (stream-cut) the messages that arrived are those received whole before
+	// the end of the stream
+	if st.cutPos >= 0 {
+		var whole []ref.Frame
+		for _, f := range frames {
+			if f.End <= st.cutPos {
+				whole = append(whole, f)
+			}
+		}
+		frames = whole
+	}
 	// 2. every handler got exactly the filtered arrival sequence
 	if v.Stats.Steps > 0 && res.Quiescent {
 		for hi, h := range st.handlers {
@@ -497,7 +550,7 @@ func (c10) Check(c *core.Case, env *core.Env, res zzsim.Result, v *core.Verdict)
 				select {
 				case m := <-h.queue:
 					if m == nil {
-						if !h.oneshot || len(got) == 0 {
+						if (!h.oneshot || len(got) == 0) && st.cutPos < 0 {
 							bad("handler-closed", "handler %d queue closed on a healthy connection", hi)
 						}
 					} else {
